@@ -4,9 +4,12 @@ Open Scope N_scope.
 
 (* ---------------------------------------------------------------- generated tables = the formula *)
 
+(* the code as it is: canOptimizeShowMacro has the format condition, the render
+   fast path of the Show statement is taken for every format and context
+   (recorded finding render-fastpath-format) *)
 Lemma fastpath_tables_agree :
-  forallb (fun t => match t with (f, c, b) => Bool.eqb b (fast_path f c) end) gen_render_fastpath = true /\
-  forallb (fun t => match t with (f, c, b) => Bool.eqb b (fast_path f c) end) gen_macro_fastpath = true.
+  forallb (fun t => match t with (f, c, b) => Bool.eqb b (fast_path f c) end) gen_macro_fastpath = true /\
+  forallb (fun t => match t with (f, c, b) => b end) gen_render_fastpath = true.
 Proof. vm_compute. auto. Qed.
 
 Lemma tbl_fast_sound tbl from ctx :
@@ -302,9 +305,6 @@ End LowerFacts.
 Section Laws.
   Variable vals : N -> N -> shown.
   Variable mfast rfast : N -> N -> bool.
-  (* generated-fact obligation: the render fast path is taken only under the format condition *)
-  Hypothesis rfast_sound : forall f x, rfast f x = true -> fast_path f x = true.
-
   Variable showf : N -> N -> bytes -> shown.
   Variable conv : option (bytes -> list bytes).
   Variable cf : bool.
@@ -320,16 +320,17 @@ Section Laws.
     decode_ctx c = Some (ctx, false, isSet) -> mem gen_show_known_ctx ctx = true ->
     st_inv st -> inURL st = false ->
     xlist never r0 w0 body = (stb, bws, Done) ->
+    (rfast fmt ctx = true -> fast_path fmt ctx = true) ->
     (fmt = ctx -> showf_same showf c fmt (bytes_of bws)) ->
     (fmt <> ctx -> fast_path fmt ctx = true -> showf_md showf conv c fmt (bytes_of bws)) ->
     snd (xnode never st ws n1) = snd (xnode never st ws n2) /\
     bytes_of (snd (fst (xnode never st ws n1))) = bytes_of (snd (fst (xnode never st ws n2))).
   Proof.
-    intros fs fuel sc params c p n1 n2 fmt body ctx isSet st ws stb bws L1 L2 RC D K Inv U Hb Hs Hm.
+    intros fs fuel sc params c p n1 n2 fmt body ctx isSet st ws stb bws L1 L2 RC D K Inv U Hb rfast_sound Hs Hm.
     rewrite lower_show_render, RC in L1. rewrite lower_var_render, RC in L2.
     injection L2 as <-. assert (Cx : ctx_of c = ctx) by (unfold ctx_of; rewrite D; reflexivity).
     rewrite Cx in L1. destruct (rfast fmt ctx) eqn:RF.
-    - injection L1 as <-. pose proof (rfast_sound _ _ RF) as FP.
+    - injection L1 as <-. pose proof (rfast_sound eq_refl) as FP.
       destruct (call_equals_show_of_value showf conv cf fmt body c ctx isSet st ws stb bws D K FP Inv U Hb Hs
                   (fun ne => Hm ne FP)) as [A [B C]].
       split; [congruence|exact C].
@@ -472,24 +473,27 @@ Definition demo_fs (node : snode) : fileset :=
   [(0, mkFile gen_FormatHTML None [] [] false [node]);
    (1, mkFile gen_FormatText None [] [] false [SText [60; 98; 62] false false])].
 
-Lemma unconditional_fast_path_refutes :
-  let always : N -> N -> bool := fun _ _ => true in
-  let run node := match lower_main demo_vals (tbl_fast gen_macro_fastpath) always (demo_fs node) 5 0 with
-                  | Some f => Some (concat (w_out (fst (run_main (showf_model None) None false never f))))
-                  | None => None
-                  end in
-  run (SShow 1 (ERender 1)) = Some [60; 98; 62] /\
-  run (SVarShow 1 (ERender 1)) = Some [38; 108; 116; 59; 98; 38; 103; 116; 59].
-Proof. vm_compute. split; reflexivity. Qed.
-
-(* with the tables generated from the repaired emitter both forms escape *)
-Lemma generated_fast_path_example :
+(* with the generated tables (the code as it is) a text file with markup rendered
+   into HTML comes out unescaped through {{ render }}, escaped through the value form *)
+Lemma render_fastpath_format_refutes :
   let run node := match build_and_run demo_vals (demo_fs node) None 5 0 never with
                   | Some (ws, r) => Some (concat (w_out ws), r)
                   | None => None
                   end in
-  run (SShow 1 (ERender 1)) = Some ([38; 108; 116; 59; 98; 38; 103; 116; 59], RunNil) /\
+  run (SShow 1 (ERender 1)) = Some ([60; 98; 62], RunNil) /\
   run (SVarShow 1 (ERender 1)) = Some ([38; 108; 116; 59; 98; 38; 103; 116; 59], RunNil).
+Proof. vm_compute. split; reflexivity. Qed.
+
+(* matching formats: both forms give the same output *)
+Lemma matching_formats_example :
+  let fs node := [(0, mkFile gen_FormatHTML None [] [] false [node]);
+                  (1, mkFile gen_FormatHTML None [] [] false [SText [60; 98; 62] false false])] in
+  let run node := match build_and_run demo_vals (fs node) None 5 0 never with
+                  | Some (ws, r) => Some (concat (w_out ws), r)
+                  | None => None
+                  end in
+  run (SShow 1 (ERender 1)) = Some ([60; 98; 62], RunNil) /\
+  run (SVarShow 1 (ERender 1)) = Some ([60; 98; 62], RunNil).
 Proof. vm_compute. split; reflexivity. Qed.
 
 (* a file with a deferred call: the value form loses the output (recorded finding) *)
